@@ -1,5 +1,7 @@
 (* Rule managers of sentinel-golang: core/{flow,isolation,hotspot,circuitbreaker,system,outlier}/rule_manager.go
-   (as of the tree with the D12-D15 repairs), transcribed as executable Gallina.
+   (as of the tree with the D12-D15 repairs, the "clear of a resource without cached rules reports
+   unchanged" repair and the "breaker getters report only served rules" repair), transcribed as
+   executable Gallina.
 
    One generic section (rule type, valid, resource, equal, stat_reusable, supported, deep_eq, quirks)
    covers the four managers that keep a map  resource -> list of controllers  (flow, isolation,
@@ -96,8 +98,8 @@ Record quirks := {
   drop_mismatch : bool;     (* build* skips rules whose Resource differs from the resource being built
                                (flow, hotspot, circuit breaker; not isolation) *)
   store_empty_all : bool;   (* whole-set load stores a resource even if nothing was built (hotspot) *)
-  separate_reported : bool  (* getters read a separate map of validated rules (circuit breaker's
-                               breakerRules) instead of the rules bound to the controllers *)
+  separate_reported : bool  (* getters read a separate map (circuit breaker's breakerRules: the loaded
+                               rules a breaker serves) instead of the rules bound to the controllers *)
 }.
 
 Inductive op (rule : Type) :=
@@ -193,6 +195,10 @@ Section Generic.
 
   Definition vfilter (l : list (option rule)) : list rule := filter valid (nonnil l).
 
+  (* a controller is built for the (valid) rule r under resource res: it is addressed to res where the
+     module checks that, and a generator exists *)
+  Definition buildable (res : Z) (r : rule) : bool := negb (mismatch res r) && supported r.
+
   Definition rules_of (res : Z) (l : list rule) : list rule := filter (fun r => resource r =? res) l.
 
   (* LoadRules: nil elements are skipped, the rest is grouped by Resource *)
@@ -207,7 +213,14 @@ Section Generic.
     if raw_eqb (raw s) g then (s, r_unchanged)
     else
       let ks := akeys g in
-      let validmap := amap_of (fun k => match vfilter (aget k g) with [] => None | v => Some v end) ks in
+      (* breakerRules: per resource with at least one breaker, the rules a breaker was built for *)
+      let validmap := amap_of (fun k => match vfilter (aget k g) with
+                                        | [] => None
+                                        | v => match build (opn s) k v (aget k (enforced s)) with
+                                               | [] => None
+                                               | _ => Some (filter (buildable k) v)
+                                               end
+                                        end) ks in
       let enf := amap_of (fun k => match vfilter (aget k g) with
                                    | [] => None
                                    | v => match build (opn s) k v (aget k (enforced s)) with
@@ -220,8 +233,13 @@ Section Generic.
   Definition load_res (s : state) (res : Z) (l : list (option rule)) : state * result :=
     if res =? 0 then (s, r_error_unchanged)
     else match l with
-    | [] => ({| enforced := adel res (enforced s); reported := adel res (reported s);
-                raw := adel res (raw s); opn := opn s + 1 |}, r_changed)
+    | [] =>
+        (* clear: nothing cached for the resource -> nothing to clear, 'unchanged' *)
+        match alookup res (raw s) with
+        | None => (s, r_unchanged)
+        | Some _ => ({| enforced := adel res (enforced s); reported := adel res (reported s);
+                        raw := adel res (raw s); opn := opn s + 1 |}, r_changed)
+        end
     | _ =>
       if list_eqb (opt_eqb deep_eq) (aget res (raw s)) l then (s, r_unchanged)
       else
@@ -229,7 +247,7 @@ Section Generic.
         match build (opn s) res v (aget res (enforced s)) with
         | [] => ({| enforced := adel res (enforced s); reported := adel res (reported s);
                     raw := aset res l (raw s); opn := opn s + 1 |}, r_changed)
-        | cs => ({| enforced := aset res cs (enforced s); reported := aset res v (reported s);
+        | cs => ({| enforced := aset res cs (enforced s); reported := aset res (filter (buildable res) v) (reported s);
                     raw := aset res l (raw s); opn := opn s + 1 |}, r_changed)
         end
     end.
@@ -545,7 +563,11 @@ Definition out_load_all (s : out_state) (l : list (option orule)) : out_state * 
 Definition out_load_res (s : out_state) (res : Z) (r : option orule) : out_state * result :=
   if res =? 0 then (s, r_error_unchanged)
   else match r with
-  | None => ({| out_raw := adel res (out_raw s); out_rules := adel res (out_rules s) |}, r_changed)
+  | None =>
+      match alookup res (out_raw s) with
+      | None => (s, r_unchanged)      (* nothing cached for the resource: nothing to clear *)
+      | Some _ => ({| out_raw := adel res (out_raw s); out_rules := adel res (out_rules s) |}, r_changed)
+      end
   | Some x =>
       if opt_eqb out_deep_eq (alookup res (out_raw s)) (Some x) then (s, r_unchanged)
       else if negb (out_valid x) then (s, r_error_changed)   (* error returned, nothing stored: rejected *)
